@@ -8,6 +8,7 @@ import (
 	"os"
 	"sort"
 	"strings"
+	"sync"
 
 	"golang.org/x/tools/go/packages"
 	"golang.org/x/tools/go/ssa"
@@ -29,6 +30,8 @@ type World struct {
 	// AllFuncs: every source function incl. generated / cli (for closure checks).
 	AllFuncs []*ssa.Function
 	GOARCH   string
+	effOnce  sync.Once
+	eff      *Effects
 }
 
 func repoDir() string {
